@@ -47,6 +47,38 @@ def rb(rng, n=None):
     return bytes(rng.randrange(256) for _ in range(rng.choice([0, 0, 1, 5]) if n is None else n))
 
 
+def permute_index_ties(t, rng):
+    """a user-supplied index that is valid but not the one build_index() writes: entries that tie on the index key
+    (left, time of parent) / (right, -time of parent) exchanged; kept only if the collection still loads as a tree sequence"""
+    ins = t.indexes.edge_insertion_order.copy()
+    rem = t.indexes.edge_removal_order.copy()
+    tm = t.nodes.time
+    changed = False
+    for i in range(len(ins) - 1):
+        a_, b_ = t.edges[int(ins[i])], t.edges[int(ins[i + 1])]
+        if a_.left == b_.left and tm[a_.parent] == tm[b_.parent] and rng.random() < 0.7:
+            ins[i], ins[i + 1] = ins[i + 1], ins[i]
+            changed = True
+    for i in range(len(rem) - 1):
+        a_, b_ = t.edges[int(rem[i])], t.edges[int(rem[i + 1])]
+        if a_.right == b_.right and tm[a_.parent] == tm[b_.parent] and rng.random() < 0.7:
+            rem[i], rem[i + 1] = rem[i + 1], rem[i]
+            changed = True
+    if changed:
+        old = t.indexes
+        t.indexes = tskit.TableCollectionIndexes(edge_insertion_order=ins, edge_removal_order=rem)
+        try:
+            ts = t.tree_sequence()
+            ref = t.copy()
+            ref.drop_index()
+            ref.build_index()
+            if [list(x.parent_array) for x in ts.trees()] != [list(x.parent_array) for x in ref.tree_sequence().trees()]:
+                raise tskit.LibraryError("different trees")
+        except Exception:
+            t.indexes = old
+    return t
+
+
 def random_collection(rng, valid=None):
     """arbitrary table collection (valid or not) with metadata everywhere"""
     a = gen.random_abstract(rng, N=rng.randint(1, 6), K=rng.randint(1, 5), max_edges=8, nsites=3, nmuts=3,
@@ -100,6 +132,15 @@ def random_collection(rng, valid=None):
             t.reference_sequence.metadata = {"a": 1}
     if not make_invalid and rng.random() < 0.7:
         t.build_index()
+        if rng.random() < 0.4 and len(t.edges) > 1:
+            permute_index_ties(t, rng)
+    if rng.random() < 0.15 and len(t.edges):
+        # a stale index: built, then the edge table changed without re-indexing (has_index() is False from here on)
+        t.build_index() if make_invalid is False else None
+        if t.has_index():
+            e = t.edges[0]
+            t.edges.append(e)
+            return t, False
     return t, (not make_invalid)
 
 
@@ -150,43 +191,62 @@ def all_ignores(a, b):
     return eq, aeq
 
 
+def cols_idx(x):
+    """the index is part of the object only while it is current (has_index): a stale one (rows added after indexing) is no index"""
+    return cols(x, with_index=x.has_index())
+
+
 def roundtrips(rng, t, valid):
     out = []
-    base = cols(t)
+    base = cols_idx(t)
 
-    def rec(name, obj, with_index=True):
-        same = cols(obj, with_index) == ({k: v for k, v in base.items() if with_index or not k.startswith("indexes/")})
-        out.append(dict(via=name, same=1 if same else 0))
+    def route(name, fn, judge=None):
+        """one storage route; an exception on the way is a failed round trip, not a harness failure"""
+        try:
+            obj = fn()
+            same = (cols_idx(obj) == base) if judge is None else judge(obj)
+            out.append(dict(via=name, same=1 if same else 0))
+        except Exception as e:
+            out.append(dict(via=name, same=0, error="%s: %s" % (type(e).__name__, str(e)[:80])))
     fd, path = tempfile.mkstemp(suffix=".trees", dir=SHM)
     os.close(fd)
     try:
-        t.dump(path)
-        rec("dump(path)/TableCollection.load", tskit.TableCollection.load(path))
-        with open(path, "wb") as f:
-            t.dump(f)
-        with open(path, "rb") as f:
-            rec("dump(file)/load(file)", tskit.TableCollection.load(f))
+        def by_path():
+            t.dump(path)
+            return tskit.TableCollection.load(path)
+
+        def by_file():
+            with open(path, "wb") as f:
+                t.dump(f)
+            with open(path, "rb") as f:
+                return tskit.TableCollection.load(f)
+        route("dump(path)/TableCollection.load", by_path)
+        route("dump(file)/load(file)", by_file)
         if valid and t.has_index():
             ts = t.tree_sequence()
+
+            def ts_file():
+                ts.dump(path)
+                return tskit.load(path).dump_tables()
+            route("ts.dump/tskit.load", ts_file)
+            route("pickle(ts)", lambda: pickle.loads(pickle.dumps(ts)).dump_tables())
+            route("deepcopy(ts)", lambda: copy.deepcopy(ts).dump_tables())
+            route("ts.tables", lambda: ts.tables.copy() if hasattr(ts.tables, "copy") else ts.dump_tables())
             ts.dump(path)
-            ts2 = tskit.load(path)
-            rec("ts.dump/tskit.load", ts2.dump_tables())
-            rec("pickle(ts)", pickle.loads(pickle.dumps(ts)).dump_tables())
-            rec("ts.tables", ts.tables.copy() if hasattr(ts.tables, "copy") else ts.dump_tables())
+        else:
+            t.dump(path)
         # skip_* paths keep the top-level information
-        st = tskit.TableCollection.load(path, skip_tables=True)
-        out.append(dict(via="skip_tables", same=1 if (st.sequence_length == t.sequence_length and st.time_units == t.time_units
-                                                      and st.metadata_bytes == t.metadata_bytes and len(st.nodes) == 0) else 0))
-        sr = tskit.TableCollection.load(path, skip_reference_sequence=True)
-        out.append(dict(via="skip_reference_sequence", same=1 if (sr.equals(t, ignore_reference_sequence=True)
-                                                                  and not sr.has_reference_sequence()) else 0))
+        route("skip_tables", lambda: tskit.TableCollection.load(path, skip_tables=True),
+              lambda st: st.sequence_length == t.sequence_length and st.time_units == t.time_units and st.metadata_bytes == t.metadata_bytes and len(st.nodes) == 0)
+        route("skip_reference_sequence", lambda: tskit.TableCollection.load(path, skip_reference_sequence=True),
+              lambda sr: sr.equals(t, ignore_reference_sequence=True) and not sr.has_reference_sequence())
     finally:
         os.remove(path)
-    rec("asdict/fromdict", tskit.TableCollection.fromdict(t.asdict()))
-    rec("asdict(force_offset_64)/fromdict", tskit.TableCollection.fromdict(t.asdict(force_offset_64=True)))
-    rec("pickle", pickle.loads(pickle.dumps(t)))
-    rec("copy", t.copy())
-    rec("copy.deepcopy", copy.deepcopy(t))
+    route("asdict/fromdict", lambda: tskit.TableCollection.fromdict(t.asdict()))
+    route("asdict(force_offset_64)/fromdict", lambda: tskit.TableCollection.fromdict(t.asdict(force_offset_64=True)))
+    route("pickle", lambda: pickle.loads(pickle.dumps(t)))
+    route("copy", lambda: t.copy())
+    route("copy.deepcopy", lambda: copy.deepcopy(t))
     return out
 
 
@@ -289,7 +349,7 @@ def make_case(rng):
 def run():
     chk = Check("C05")
     rng = random.Random(SEED * 7919 + 5)
-    mc = common.tlc_mc("MC_Stream", timeout=600)
+    mc = common.tlc_mc("MC_Stream", timeout=3000)
     chk.add_tlc(mc)
     chk.extra["mc"] = dict(states=mc["states"], transitions=mc["transitions"], completed=mc["ok"])
     if not mc["ok"]:
